@@ -1296,7 +1296,7 @@ fn mk_listener_with_child_on(bind_ip: IpAddr, backlog: usize, state: TcpState) -
     (k, lfd, child, isn.wrapping_add(1))
 }
 
-// @verif id=C13 tier=quick role=handshake_ack timeout=900
+// @verif id=C13,C16 tier=quick role=handshake_ack timeout=900
 // The third handshake packet: an ACK carrying exactly the child's snd_nxt promotes the child to
 // Established and queues it for accept exactly once; any other ACK number leaves it handshaking.
 crate::verif_proof! { unwind = 8;
@@ -1313,6 +1313,9 @@ fn c13_handshake_ack_queues_the_child_exactly_once() {
     let st = k.sockets.get(child).unwrap().tcb.as_ref().unwrap().state;
     if ackno == snd_nxt {
         assert!(st == TcpState::Established && ready == 1, "queued exactly once");
+        // C16: the window that counts is the one the peer advertised LAST - the handshake ACK's, not
+        // the SYN's
+        assert!(k.sockets.get(child).unwrap().tcb.as_ref().unwrap().snd_wnd == seg.window, "the handshake ACK's window is recorded");
         assert!(k.sockets.get(lfd).unwrap().listen.as_ref().unwrap().ready.front() == Some(&child));
     } else {
         assert!(st == TcpState::SynReceived && ready == 0, "a wrong acknowledgement number does not complete the handshake");
@@ -1322,6 +1325,31 @@ fn c13_handshake_ack_queues_the_child_exactly_once() {
     kani::cover!(ackno != snd_nxt, "stray ACK ignored");
     std::mem::forget(k);
     std::mem::forget(seg);
+}
+}
+
+// @verif id=C06,C13 tier=quick role=handshake_retx timeout=900
+// A SYN-ACK that is retransmitted (the first one was lost) is the SAME segment in sequence terms: it
+// consumes the sequence number the original consumed (seq + 1 == snd_nxt), acknowledges the SYN
+// (ack == rcv_nxt) and goes to the connector; otherwise the peer builds its state one number off and
+// every later byte looks out of order. The child keeps handshaking and is charged one attempt.
+crate::verif_proof! { unwind = 8;
+fn c06_retransmitted_syn_ack_carries_the_original_sequence_number() {
+    let (mut k, _lfd, child, snd_nxt) = mk_listener_with_child(2, TcpState::SynReceived);
+    k.retx_threshold = 1;
+    k.retx_max = 3;
+    check_retx(&mut k);
+    assert!(k.outbound.len() == 1, "one retransmitted SYN-ACK");
+    let pkt = k.outbound.back().unwrap();
+    let o = tcp_of(pkt);
+    assert!(o.flags.syn && o.flags.ack && !o.flags.rst && !o.flags.fin && o.payload.is_empty());
+    assert!(o.seq.wrapping_add(1) == snd_nxt, "same sequence number as the original SYN-ACK");
+    assert!(o.ack == 1001, "acknowledges the connector's SYN");
+    assert!(pkt.dst == R.ip() && o.dst_port == R.port() && o.src_port == 80);
+    let t = k.sockets.get(child).unwrap().tcb.as_ref().unwrap();
+    assert!(t.state == TcpState::SynReceived && !t.timed_out && t.snd_nxt == snd_nxt && t.snd_una == snd_nxt);
+    kani::cover!(snd_nxt == 0, "initial sequence number u32::MAX: the retransmission wraps");
+    std::mem::forget(k);
 }
 }
 
